@@ -7,6 +7,7 @@ require (
 	github.com/invopop/jsonschema v0.12.0
 	github.com/invopop/validation v0.7.0
 	github.com/invopop/yaml v0.3.1
+	golang.org/x/text v0.23.0
 )
 
 require (
